@@ -3,8 +3,8 @@ CONSTANTS
   DeclSet <- MCDeclSet
   EnvSet <- MCEnvSet
   ArgvSet <- MCArgvSet
-  MaxParses = 3
-  EnvChanges = TRUE
+  MaxParses = 2
+  EnvChanges = FALSE
   LetterAdds <- MCLetterAdds
 INVARIANTS TypeOK NeverStuck MachineIsMeaning Repeatable ErrorIffDocumented Accounted Ranked RequiredHaveValue TogglesCount PositionalsWithinLimit AfterDDEverythingPositional Emit
 PROPERTIES ScanAccounts Progress
